@@ -21,7 +21,8 @@ static inline int poll(ctx_t *x, int k, int t)
 {
 	x->polls[k]++;
 	emit(1000 + k);
-	return x->polls[k] % (t + 1) == 0;
+	/* "true" is deliberately not always 1: conditions in real code are masks, counts and pointers */
+	return x->polls[k] % (t + 1) == 0 ? 2 + 5 * k : 0;
 }
 #define cctx_of(x, i) child_ctx((x), (i))
 
